@@ -101,11 +101,11 @@ def opDEC (args obs : List String) : Option DecOut :=
         -- a trailing alloc=<bytes> comes from runs in a child process (count-suspect inputs)
         let allocTok := used.find? (·.startsWith "alloc=")
         let used := used.filter (fun t => ¬ t.startsWith "alloc=")
-        -- "aliased": the decoded value changed when the caller overwrote the input slice / the reader took in more data
+        -- "aliased": the decoded value changed when the caller overwrote the input slice / the reader took in more data / the library decoded another message
         let fAlias := if used.contains "aliased" || fresh.contains "aliased" then
-            ["C07 the decoded message changes when the memory it was decoded from is reused (it aliases the input)",
-             "C01 the decoded value does not stay equal to the original: it aliases the input buffer",
-             "C12 what a decoded message reports (chunk id included) changes later: it aliases the input"] else []
+            ["C07 the decoded message changes when the memory it was decoded from is reused or the library decodes another message (it aliases the input or shares objects with later decodes)",
+             "C01 the decoded value does not stay equal to the original: it aliases the input buffer or objects of later decodes",
+             "C12 what a decoded message reports (chunk id included) changes later: it aliases the input or objects of later decodes"] else []
         let used := used.filter (· ≠ "aliased")
         let fresh := fresh.filter (· ≠ "aliased")
         if used == ["skip"] then some { corr := none, fails := [], branch := s!"dec.{ty}.{ps}.{cls}.skip" } else
@@ -151,6 +151,24 @@ def opDEC (args obs : List String) : Option DecOut :=
         let f18 := if fresh.isEmpty || !c18Scope then [] else
           if " ".intercalate fresh == go then [] else ["C18 used-receiver-differs-from-fresh",
             "C01 the decoded value differs from what the bytes denote (it depends on what the receiver held before)"]
+        -- C19 (decode side, through the message decoders): a timestamp extension (type 0) that is not exactly eight
+        -- bytes long must make the decode fail
+        let badTs (o : Obj) : Bool := match o with | .ext t d => t == 0 && d.length != 8 | _ => false
+        let tsObjs : List Obj := match parse b with
+          | some (.arr xs, _) =>
+            let l := Spec.objsToList xs
+            if ty == "MessageExt" then (l.drop 1).take 1
+            else if ty == "EntryExt" then l.take 1
+            else if ty == "Forward" then
+              (match (l.drop 1).take 1 with
+               | [.arr es] => (Spec.objsToList es).filterMap fun e => match e with | .arr (.cons t _) => some t | _ => none
+               | _ => [])
+            else []
+          | _ => []
+        let f19 := if go.startsWith "ok" && tsObjs.any badTs then
+            [s!"C19 {ty}: a timestamp extension that is not exactly eight bytes long was accepted",
+             s!"C13 {ty}: an element that is not a valid EventTime was read over instead of being rejected (what follows is read in its place)",
+             s!"C10 {ty}: a malformed EventTime was accepted"] else []
         let kind := match used with | k :: _ => k | [] => "?"
         let corr :=
           if m == go then none
@@ -160,7 +178,7 @@ def opDEC (args obs : List String) : Option DecOut :=
           -- `Reader.Skip` gives up on those (DESIGN 0.5); outside the modelled domain
           else if p == .stream ∧ b.length > 4000 ∧ hasExt32Tok (b.length + 1) b then none
           else some s!"model=[{m}] go=[{go}]"
-        some { corr := corr, fails := f10 ++ f13 ++ f18 ++ fAlloc ++ fAlias,
+        some { corr := corr, fails := f10 ++ f13 ++ f18 ++ f19 ++ fAlloc ++ fAlias,
                branch := s!"dec.{ty}.{ps}.{cls}.{if rv = "F" then "F" else "U"}.{kind}" }
     | _, _ => none
   | _ => none
@@ -444,10 +462,12 @@ def opCID (args obs : List String) : Option DecOut :=
           (if g == id1 then [] else ["C12 GetChunk of the encoding differs from the id"])
         some { corr := corr, fails := fails, branch := s!"cid.{kind}.{(st.take 1).toString}" }
     | _, _, _, _, _ => none
-  | ["stress", _, _], [d, bad] =>
-    some { corr := none,
+  | ["stress", _, _], d :: bad :: rest =>
+    let pan := rest.headD "panics=0"
+    some { corr := if pan == "panics=0" then none else some s!"model=[no panic] go=[{pan}]",
            fails := (if d == "dups=0" then [] else [s!"C12 duplicate ids under concurrency {d}"]) ++
-                    (if bad == "bad=0" then [] else [s!"C12 malformed ids {bad}"]),
+                    (if bad == "bad=0" then [] else [s!"C12 malformed ids {bad}"]) ++
+                    (if pan == "panics=0" then [] else [s!"C12 Chunk() called from several goroutines on different messages panicked ({pan}): ids are not generated safely under concurrency"]),
            branch := "cid.stress" }
   | _, _ => none
 end FV.Driver
